@@ -13,6 +13,14 @@
 #include "nmtools/array/view/vstack.hpp"
 #include "nmtools/array/view/alias.hpp"
 #include "nmtools/array/index/alias.hpp"
+#include "nmtools/array/view/activations/leaky_relu.hpp"
+#include "nmtools/array/view/activations/elu.hpp"
+#include "nmtools/array/view/activations/celu.hpp"
+#include "nmtools/array/view/activations/hardtanh.hpp"
+#include "nmtools/array/view/activations/softplus.hpp"
+#include "nmtools/array/view/activations/hardshrink.hpp"
+#include "nmtools/array/view/activations/softshrink.hpp"
+#include "nmtools/array/view/activations/prelu.hpp"
 using namespace c13;
 using namespace nmtools::literals;
 
@@ -118,6 +126,10 @@ template <typename view_t> static std::string graph(const view_t& v, const std::
 // PROG: extraction only; GRAPH: extraction and compute graph
 #define PROG(name, expr)  if (prog == name) { if (op == "c14_extract") return extract(expr, leaves); return "no-graph-compiled"; }
 #define GRAPH(name, expr) if (prog == name) { if (op == "c14_extract") return extract(expr, leaves); return graph(expr, leaves); }
+
+// run-time parameter i of a parametrised activation: request pq=<ints>, in quarter units (exact in binary32)
+#define PQ(i) (0.25f * (float)par_q(a, i))
+static int par_q(const Args& a, size_t i) { auto v = intsi(a, "pq"); if (i >= v.size()) throw bad_args("pq"); return v[i]; }
 
 std::string handle(const std::string& op, const Args& a) {
 #if C14_GROUP == 1
@@ -229,6 +241,28 @@ std::string handle(const std::string& op, const Args& a) {
     PROG("sub_lit_neg_x",     view::subtract(LIT, view::negative(x1)))
     PROG("where_maxall",      view::where(MAXALL(x0), x1, x2))
     PROG("where_lit",         view::where(LIT, x1, x2))
+#elif C14_GROUP == 14
+    // (float leaves, -DC13_ELEM_FLOAT; elements printed as binary32 bit patterns) a unary ufunc whose op carries RUN-TIME PARAMETERS:
+    // the extracted functor gets the op through ufunc_t::attributes() only
+    GRAPH("act_leaky",     view::leaky_relu(x0, PQ(0)))
+    PROG("act_elu",        view::elu(x0, PQ(0)))
+    PROG("act_celu",       view::celu(x0, PQ(0)))
+    PROG("act_hardtanh",   view::hardtanh(x0, PQ(0), PQ(1)))
+    PROG("act_softplus",   view::softplus(x0, PQ(0), PQ(1)))
+    PROG("act_hardshrink", view::hardshrink(x0, PQ(0)))
+    PROG("act_softshrink", view::softshrink(x0, PQ(0)))
+    PROG("act_prelu",      view::prelu(x0, PQ(0)))
+#elif C14_GROUP == 15
+    // … as inner / outer node of a chain, first / non-first operand position, two parametrised ops in one chain
+    PROG("neg_leaky",      view::negative(view::leaky_relu(x0, PQ(0))))
+    PROG("leaky_add",      view::leaky_relu(view::add(x0, x1), PQ(0)))
+    PROG("add_leaky_x",    view::add(view::leaky_relu(x0, PQ(0)), x1))
+    PROG("add_x_leaky",    view::add(x0, view::leaky_relu(x1, PQ(0))))
+    PROG("mul_x_hardshrink", view::multiply(x0, view::hardshrink(x1, PQ(0))))
+    PROG("hardtanh_mul_elu_x", view::hardtanh(view::multiply(view::elu(x0, PQ(0)), x1), PQ(1), PQ(2)))
+    PROG("sum_softshrink", view::reduce_add(view::softshrink(x0, PQ(0)), AXIS, DROP))
+    PROG("prelu_tr",       view::prelu(view::transpose(x0, AXES), PQ(0)))
+    PROG("celu_neg_softplus", view::celu(view::negative(view::softplus(x0, PQ(0), PQ(1))), PQ(2)))
 #endif
     return "unknown-prog";
 }
